@@ -633,7 +633,7 @@ fn dbg(ctx: &Ctx, bi: Bi, what: &str, call: &Value) -> Value {
     let mut s = String::new();
     macro_rules! d {
         ($e:expr) => {
-            write!(s, "{:?}", $e).unwrap()
+            { write!(s, "{:?}", $e).unwrap(); write!(s, "{:#?}", $e).unwrap() }
         };
     }
     match what {
